@@ -34,8 +34,7 @@ component hands to the next) and adds thin wrappers where a component model lack
 All randomness and the environment are explicit inputs (`Inputs`): spatial / temporal coverage rolls
 per (day, method, emission), the travel time sampled for a visit per (day, method, site), the result of
 the weather check per (day, method, site), the daylight minutes per day, the repair cost drawn for an
-emission, the calendar date of a day index.  The quantification shift is the constant `MethodCfg.err`
-(0 in the configurations the harness generates).  The repair delay sampled for an emission and its rate are
+emission, the calendar date of a day index, the quantification shift (percent) of every measurement.  The repair delay sampled for an emission and its rate are
 part of the scenario (`EmInfo`).  Static parameters stay outside the state.
 -/
 namespace LdarModel.Sim
@@ -81,7 +80,6 @@ structure MethodCfg where
   considerWeather : Bool := false
   cost : Cost.MethodCost := { perDay := 0, perSite := none, upfront := 0 }
   mdl : Int := 0
-  err : Int := 0                      -- quantification shift (percent) the predictor draws
   trd : Int := 0                      -- reporting delay
   sites : List Nat := []              -- `_survey_plans` order
   S : Nat → Int := fun _ => 0         -- site.get_method_survey_time
@@ -107,6 +105,30 @@ structure Inputs where
   workable : Nat → Nat → Nat → Bool          -- day, method, site: `check_weather`
   daylightMin : Nat → Int                    -- day: daylight hours × 60
   repairCost : Nat → Int                     -- emission: `get_repair_cost()` when it is repaired
+  shift : Nat → Nat → Nat → Nat → Nat → Int  -- day, method, site, group, component: the quantification shift
+                                             -- (percent) the predictor draws for that unit if it is detected;
+                                             -- a site-level measurement uses group 0, component 0
+
+/-! ## the calendar
+
+`TimeCounter.next_day` / `Program.update_date` add one day to a `datetime.date`; the model computes the
+proleptic Gregorian calendar itself (`dateOf start n` = start date + n days), the harness compares it
+with `datetime` for every simulated day of every run. -/
+
+def isLeap (y : Nat) : Bool := (y % 4 == 0 && y % 100 != 0) || y % 400 == 0
+
+def daysIn (y m : Nat) : Nat :=
+  if m = 2 then (if isLeap y then 29 else 28)
+  else if m = 4 ∨ m = 6 ∨ m = 9 ∨ m = 11 then 30 else 31
+
+def nextDate (d : Sched.Date) : Sched.Date :=
+  if d.d < daysIn d.y d.m then { d with d := d.d + 1 }
+  else if d.m < 12 then { y := d.y, m := d.m + 1, d := 1 }
+  else { y := d.y + 1, m := 1, d := 1 }
+
+def dateOf (start : Sched.Date) : Nat → Sched.Date
+  | 0 => start
+  | n + 1 => nextDate (dateOf start n)
 
 /-! ## state -/
 
@@ -190,10 +212,12 @@ def outcomeOf (o : Crew.OutRec) : Sched.Outcome :=
 def fuOutcomeOf (o : Crew.OutRec) : FollowUp.Outcome :=
   if o.rep.complete then .complete else if o.rep.inProgress then .inProgress else .unattended
 
-/-- the sensor configuration of a survey of `site` by method `c` -/
-def sensorCfg (w : World) (c : MethodCfg) (site : Nat) : Sensor.Cfg :=
-  if c.tags then .component ((w.layout site).map (fun gc => (gc.1, gc.2.map (fun k => (k, c.err)))))
-  else .site c.err
+/-- the sensor configuration of a survey of `site` on day `n` by the method `c` at position `m`: the
+site's layout with the quantification shift each unit would be measured with -/
+def sensorCfg (w : World) (inp : Inputs) (n m : Nat) (c : MethodCfg) (site : Nat) : Sensor.Cfg :=
+  if c.tags then
+    .component ((w.layout site).map (fun gc => (gc.1, gc.2.map (fun k => (k, inp.shift n m site gc.1 k)))))
+  else .site (inp.shift n m site 0 0)
 
 /-- an emission as a survey of method `m` on day `n` sees it, with the rolls it may draw -/
 def mkX (inp : Inputs) (n m : Nat) (info : EmInfo) (s : Emission.State) (cov : Cov) :
@@ -256,7 +280,7 @@ def surveyOne (w : World) (inp : Inputs) (n m : Nat) (c : MethodCfg) (ss : List 
   let site := o.req.site
   let xs := mkXs w inp n m ss acc.1
   let sv : Sensor.SurveyIn :=
-    { cfg := sensorCfg w c site, m := m, trd := c.trd, mdl := c.mdl, site := site, xs := xs }
+    { cfg := sensorCfg w inp n m c site, m := m, trd := c.trd, mdl := c.mdl, site := site, xs := xs }
   (setCovs acc.1 (Sensor.after m site xs),
    acc.2 ++ [{ sv := sv, out := o, rep := Sensor.surveyOf sv, targets := Sensor.tagTargets (Sensor.surveyOf sv),
                tSince := (n : Int) - lt site, hrep := rfl, htargets := rfl }])
